@@ -39,6 +39,8 @@ type peerCfg struct {
 	expOrder   []string          // the order in which the session must propose (precedence, size, mid)
 	expectFW   []string          // forwarder addresses the session must announce
 	expectResp map[string]string // address -> secure response expected (when a challenge is sent)
+	offsets    map[string]int    // accept the session's proposal for this mid at an offset ("!n" / "An": resume)
+	expectComp map[string][]byte // the compressed form the session proposes, by mid (to judge resumed transfers)
 	rng        *rand.Rand
 }
 
@@ -118,7 +120,11 @@ func (p *peer) sendFrame(m peerMsg) {
 }
 
 // readFrame reads and validates one SOH..EOT transfer for a proposal with compressed size csize.
-func (p *peer) readFrame(mid string, csize int) bool {
+func (p *peer) readFrame(mid string, csize int) bool { return p.readFrameAt(mid, csize, 0) }
+
+// readFrameAt: the transfer of a proposal accepted at the given offset carries the offset in its header and
+// the compressed bytes from that offset on.
+func (p *peer) readFrameAt(mid string, csize, offset int) bool {
 	b, err := p.rd.ReadByte()
 	if err != nil {
 		p.viol("frame", "no transfer for accepted proposal %s", mid)
@@ -148,8 +154,8 @@ func (p *peer) readFrame(mid string, csize int) bool {
 			break
 		}
 	}
-	if string(off) != "0" {
-		p.viol("frame-offset", "offset %q, want \"0\"", off)
+	if string(off) != strconv.Itoa(offset) {
+		p.viol("frame-offset", "offset %q, want %q", off, strconv.Itoa(offset))
 	}
 	var data []byte
 	sum := 0
@@ -185,6 +191,21 @@ func (p *peer) readFrame(mid string, csize int) bool {
 		}
 		p.viol("frame-block", "unexpected byte 0x%02x between data blocks", b)
 		return false
+	}
+	if offset > 0 {
+		// a resumed transfer. The FBB text says of version 1 "the 6 top bytes will be always sent, then if resume
+		// seek to asked offset"; whether B2 repeats the 6 header bytes cannot be settled from the documents in
+		// the repository, so both forms are taken as conforming and only the common part is judged: the bytes
+		// from the offset on must be the tail of the transfer.
+		want := p.cfg.expectComp[mid]
+		if offset <= len(want) && !bytes.HasSuffix(data, want[offset:]) {
+			p.viol("frame-resume-content", "resumed transfer of %s does not end with the compressed bytes from offset %d on", mid, offset)
+		}
+		if len(data) != csize-offset && len(data) != csize-offset+6 {
+			p.viol("frame-size", "resumed transfer for %s carried %d bytes, proposal said %d (accepted at offset %d)", mid, len(data), csize, offset)
+		}
+		p.res.got[mid] = p.cfg.expect[mid] // (the peer is assumed to hold the first part already)
+		return true
 	}
 	if len(data) != csize {
 		p.viol("frame-size", "transfer for %s carried %d bytes, proposal said %d", mid, len(data), csize)
@@ -274,6 +295,7 @@ func (p *peer) theirTurn() (bool, bool, bool) {
 			}
 			var ans strings.Builder
 			accepted := []prop{}
+			offs := map[string]int{}
 			seen := map[string]bool{}
 			for _, pr := range props {
 				a, ok := p.cfg.policy[pr.mid]
@@ -284,7 +306,12 @@ func (p *peer) theirTurn() (bool, bool, bool) {
 					a = '='
 				}
 				seen[pr.mid] = true
-				ans.WriteString(p.answerSpelling(a))
+				if o := p.cfg.offsets[pr.mid]; a == '+' && o > 0 && o < pr.csize {
+					offs[pr.mid] = o
+					ans.WriteString([]string{"!", "A", "a"}[p.cfg.rng.Intn(3)] + strconv.Itoa(o))
+				} else {
+					ans.WriteString(p.answerSpelling(a))
+				}
 				if a == '+' {
 					accepted = append(accepted, pr)
 					p.res.accepted[pr.mid] = true
@@ -301,7 +328,7 @@ func (p *peer) theirTurn() (bool, bool, bool) {
 			}
 			p.send("FS " + ans.String() + "\r")
 			for _, pr := range accepted {
-				if !p.readFrame(pr.mid, pr.csize) {
+				if !p.readFrameAt(pr.mid, pr.csize, offs[pr.mid]) {
 					return true, false, false
 				}
 			}
@@ -568,7 +595,7 @@ func init() {
 			for k := r.Intn(3); k > 0; k-- {
 				sp.aux = append(sp.aux, hskAux{Addr: fmt.Sprintf("AUX%d", k), Pw: []string{"", "auxpw"}[r.Intn(2)]})
 			}
-			cfg := &peerCfg{master: !sessMaster, rng: rand.New(rand.NewSource(r.Int63())), policy: map[string]byte{}, expect: map[string][]byte{}, expectResp: map[string]string{}}
+			cfg := &peerCfg{master: !sessMaster, rng: rand.New(rand.NewSource(r.Int63())), policy: map[string]byte{}, expect: map[string][]byte{}, expectResp: map[string]string{}, offsets: map[string]int{}, expectComp: map[string][]byte{}}
 			cfg.features = []string{"B2FWIHJM$", "B2FHM$", "BFB2HM$", "b2fihm$", "AB1B2FHMX$"}[r.Intn(5)]
 			cfg.comments = r.Intn(2) == 0
 			cfg.earlyFQ = r.Intn(3) == 0
@@ -611,11 +638,17 @@ func init() {
 				sp.outbox = append(sp.outbox, om)
 				cfg.expect[om.mid] = om.data
 				ords = append(ords, ord{om.mid, precedenceOf(om.title), len(fbbCompressed(om))})
-				switch r.Intn(6) {
+				switch r.Intn(7) {
 				case 0:
 					cfg.policy[om.mid] = '-'
 				case 1:
 					cfg.policy[om.mid] = '='
+				case 2:
+					// resume: the peer says it already holds the first bytes
+					if cs := len(fbbCompressed(om)); cs > 8 {
+						cfg.offsets[om.mid] = 1 + r.Intn(cs-1)
+						cfg.expectComp[om.mid] = fbbCompressed(om)
+					}
 				}
 			}
 			sort.Slice(ords, func(a, b int) bool {
@@ -741,4 +774,3 @@ func init() {
 		c.Compare(cases)
 	})
 }
-
